@@ -573,7 +573,6 @@ Record evals := mk_evals {
 Definition syn_depth : nat := N.to_nat 4000.
 
 Definition step_eval_q (E : evals) (rho : env) (q : query) (v : tv) (ps : pst) (k : K) : M unit :=
-  tick ;;
   match q with
   | Query imports fds tm lq oq rq pats =>
     match imports with
@@ -1075,6 +1074,8 @@ Definition step_call (E : evals) (rho : env) (name : bytes) (args : list query) 
                | None => skipM "undefined-function"
                end)
     end in
+  (* every loop of a jq program goes through a call: counting calls bounds the total work *)
+  tick ;;
   if is_var_name name && Nat.eqb arity 0 then
     match lookup_var rho name with
     | Some x => k x ps
@@ -1124,7 +1125,7 @@ Inductive ending :=
 | EndHalt (v : jv) (code : Z)
 | EndSkip (why : bytes).                     (* no verdict *)
 
-Definition step_budget : N := 400000%N.
+Definition step_budget : N := 200000%N.
 Definition init_state (capn : nat) (ins : list jv) (rs : bool) : sst := mkst [] O capn 0%N ins [] rs step_budget.
 
 Definition observe (builtins : list funcdef) (fuel capn : nat) (rs : bool) (ins : list jv) (q : query) (v : jv)
